@@ -354,7 +354,7 @@ class DocGen:
             return out
         n = t.name
         if n == 'Int':
-            return r.choice([0, 1, -5, 2**31 - 1, 42])
+            return r.choice([0, 1, -5, 2**31 - 1, 42, -2**31])
         if n == 'Float':
             return r.choice([0.5, 2, -1.25, 1e10, 3.0])
         if n == 'String':
